@@ -7,7 +7,7 @@ import random
 from .. import core, sx
 from . import rustside as rs
 
-THEOREMS = ['C05.opcodes_tied', 'C05.rust_judgements_tied', 'C05.encode1_heads', 'C05.unknown_opcode_rejected', 'C05.truncated_rejected',
+THEOREMS = ['C05.opcodes_tied', 'C05.rust_judgements_tied', 'C05.rust_execute_is_the_model', 'C05.rust_verify_is_the_model', 'C05.encode1_heads', 'C05.unknown_opcode_rejected', 'C05.truncated_rejected',
             'C05.verifyBytes_decode_none', 'C05.type_confusion_rejected', 'C05.bad_index_rejected',
             'C05.mismatching_claim_rejected', 'C05.unproved_claims_rejected', 'C05.rejection_is_final',
             'C05.run_is_sequential', 'decode_encode', 'decode_sound']
